@@ -295,6 +295,75 @@ def build(run):
                     return check_same(mk, r, lambda w, c, env: den(w, e, c, env), (), timeout_ms=tmo, what=tag)
                 run.add(tag, thunk, kind="values")
 
+    # ---- through compute_form_data (FormData decides per integral whether restrictions are propagated at all): single-domain dS and a
+    # multi-domain measure "interior facets of this mesh that are exterior facets of another one"
+    def via_cfd(cname, multi):
+        tag = f"compute_form_data/{cname}/" + ("dS intersected with ds of a second mesh" if multi else "dS")
+
+        def thunk():
+            from ufl.algorithms import compute_form_data
+            msh = tri
+            e = dict(corpus(msh))[cname]
+            if multi:
+                other = ufl.Mesh(E.LagrangeElement(ufl.triangle, 1, (2,)), ufl_id=917017)      # a second, distinct mesh
+                gB = ufl.Coefficient(spaces(other)["DG"])
+                meas = ufl.Measure("dS", msh, intersect_measures=(ufl.Measure("ds", other),))
+                form = (gB * e) * meas
+            else:
+                meas = ufl.Measure("dS", msh)
+                form = e * meas
+            mk = two_world(msh)
+            try:
+                den(mk(True, None), e, (), {})
+                meaningful = True
+            except Unsupported:
+                meaningful = False
+            try:
+                fd = compute_form_data(form)
+            except (ValueError, RuntimeError) as ex:
+                if not deliberate(ex):
+                    return violated(f"crash instead of a result or a refusal: {crash_text(ex)}", reproduced=True, backend="exec")
+                return proved("rejected", sample=f"{tag}: {ex}"[:200])
+            n = 0
+            for idata in fd.integral_data:
+                if idata.integral_type != "interior_facet":
+                    return violated(f"{tag}: integral type became {idata.integral_type}", reproduced=True)
+                for itg in idata.integrals:
+                    r = itg.integrand()
+                    n += 1
+                    bad = restricted_once(r)
+                    if bad:
+                        return violated(f"{tag}: {bad}: {str(r)[:300]}", replay={"integrand": str(e)[:600], "result": str(r)[:600]}, reproduced=True, backend="structural")
+                    if not meaningful:
+                        return violated(f"{tag}: an integrand with a missing or double restriction was accepted: {str(r)[:300]}",
+                                        replay={"integrand": str(e)[:600], "result": str(r)[:600]}, reproduced=True, backend="exec")
+                    # every side-dependent terminal of the interior-facet mesh carries a restriction now
+                    unres = []
+
+                    def walk(x, inside):
+                        if isinstance(x, C.Restricted):
+                            inside = True
+                        if x._ufl_is_terminal_ and not inside:
+                            dom = None
+                            try:
+                                dom = ufl.domain.extract_unique_domain(x)
+                            except Exception:  # noqa: BLE001
+                                pass
+                            if dom is msh and isinstance(x, (C.Coefficient, C.Argument, C.FacetNormal, C.Jacobian, C.SpatialCoordinate)) \
+                                    and not (isinstance(x, C.SpatialCoordinate) or (isinstance(x, C.Coefficient) and x.ufl_element() in ufl.sobolevspace.H1 and False)):
+                                unres.append(str(x))
+                        for o in x.ufl_operands:
+                            walk(o, inside)
+                    walk(r, False)
+                    if unres:
+                        return violated(f"{tag}: after compute_form_data the terminals {sorted(set(unres))} of the interior-facet mesh are unrestricted in {str(r)[:300]}",
+                                        replay={"integrand": str(e)[:600], "result": str(r)[:600]}, reproduced=True, backend="structural")
+            return proved("exec+structural", vcs=n, sample=f"{tag}: restrictions on terminals only, every argument/coefficient/normal of the facet mesh restricted")
+        run.add(tag, thunk, kind="values")
+    for cname, _e in corpus(tri):
+        for multi in (False, True):
+            via_cfd(cname, multi)
+
     def canary():
         msh = tri
         sp = spaces(msh)
